@@ -185,14 +185,14 @@ theorem sinv_runList {S V L : Type} (c : Cfg) (hg : c.good = true) (sim : Sim S 
 
 /-- **The session reports, for whatever partition into calls, exactly the ideal rows**: batch labels
 (the grid), and values in which the settings of each step are in force from that step on and not before. -/
-def C09_full (c : Cfg) : Prop :=
+def C09_channels (c : Cfg) : Prop :=
   ∀ (S V L : Type) (sim : Sim S V), Causal sim →
   ∀ (spec : Spec L) (base : S) (eqs : List Nat) (lazy : Bool) (cs : List (Call S)),
     (expand c spec cs 0).length ≤ spec.n + 1 →
     (calls c sim spec eqs lazy cs (begin base)).1.log =
       (List.range (expand c spec cs 0).length).map (idealRow sim spec base (expand c spec cs 0) eqs)
 
-theorem C09_full_of_good (c : Cfg) (hg : c.good = true) : C09_full c := by
+theorem C09_channels_of_good (c : Cfg) (hg : c.good = true) : C09_channels c := by
   intro S V L sim hc spec base eqs lazy cs hl
   rw [partition_invariance]
   have h0 : SInv sim spec base eqs (begin base : Sess S L V) [] :=
@@ -232,7 +232,7 @@ theorem C09_session_equals_batch (c : Cfg) (hg : c.good = true) {S V L : Type} (
     simp only [Cfg.good, Bool.and_eq_true] at hg; simp [adv, hg.1.1]
   have hlen : (expand c spec [Call.stream (none : Option S)] 0).length = spec.n + 1 := by
     simp [expand, hadv, streamCount_full spec.n (spec.n + 1) 0 (by omega)]
-  have := C09_full_of_good c hg S V L sim hc spec base eqs lazy [.stream none] (by omega)
+  have := C09_channels_of_good c hg S V L sim hc spec base eqs lazy [.stream none] (by omega)
   rw [this, hlen]
   unfold batchDf
   apply List.map_congr_left
@@ -258,6 +258,523 @@ theorem runStep_stopped {S V L : Type} (c : Cfg) (sim : Sim S V) (spec : Spec L)
     runStep c sim spec eqs lazy st s = (st, .stopped) := by
   simp [runStep, h]
 
+/-! ## Wave 2 — "settings from step k on, nothing before" derived at memo level
+
+The session of `Core/C09` (`mstep`) runs C08's model of `Model.memoize` (`C08.evalK`) with definitions that
+change between steps and a memo that is never reset.  Reference: the big-step value of an expression
+under **time-varying definitions** — a reference to grid index `i` uses the definitions in force at `i`. -/
+
+open Bptk.C08 (Expr Memo Key look Ops evalE evalK)
+
+/- two facts about C08's `look` / `evalK` (also proved in Props/C08; restated here so that this file depends
+on the model `Core/C08` only) -/
+theorem look_cons' {α : Type} (m : Memo α) (k key : Key) (v : α) :
+    look ((k, v) :: m) key = if k = key then some v else look m key := rfl
+
+theorem evalK_stored' {α : Type} (ops : Ops α) (body : Nat → Expr α) (fuel : Nat) (m : Memo α)
+    (key : Key) (v : α) (h : (evalK ops body fuel m key).2 = some v) :
+    look (evalK ops body fuel m key).1 key = some v := by
+  cases fuel with
+  | zero => simp [evalK] at h
+  | succ f =>
+      simp only [evalK] at h ⊢
+      cases hl : look m key with
+      | some w => simp only [hl] at h ⊢; simp at h; subst h; rfl
+      | none =>
+          simp only [hl] at h ⊢
+          rcases hee : evalE ops (evalK ops body f) (body key.1) key.2 m with ⟨m1, r⟩
+          rw [hee] at h
+          cases r with
+          | none => simp at h
+          | some x => simp at h; subst h; simp [look_cons']
+
+/-- carrier of the witnesses: integers with `+ - * /` and `max(0, ·)` -/
+def wOps : Ops Int := { bin := fun op x y => match op with | 0 => x + y | 1 => x - y | 2 => x * y | _ => x / y
+                        max0 := fun x => if x < 0 then 0 else x }
+
+inductive ValT {α : Type} (ops : Ops α) (defs : Nat → Nat → Expr α) : Expr α → Nat → α → Prop where
+  | lit (x : α) (k : Nat) : ValT ops defs (.lit x) k x
+  | ref (n k : Nat) (v : α) : ValT ops defs (defs k n) k v → ValT ops defs (.ref n) k v
+  | prev (n k : Nat) (v : α) : ValT ops defs (defs k n) k v → ValT ops defs (.prev n) (k + 1) v
+  | bin (op : Nat) (a b : Expr α) (k : Nat) (x y : α) :
+      ValT ops defs a k x → ValT ops defs b k y → ValT ops defs (.bin op a b) k (ops.bin op x y)
+  | max0 (a : Expr α) (k : Nat) (x : α) : ValT ops defs a k x → ValT ops defs (.max0 a) k (ops.max0 x)
+  | atStart0 (a b : Expr α) (v : α) : ValT ops defs a 0 v → ValT ops defs (.atStart a b) 0 v
+  | atStartS (a b : Expr α) (k : Nat) (v : α) :
+      ValT ops defs b (k + 1) v → ValT ops defs (.atStart a b) (k + 1) v
+  | lookup (p : Nat) (a : Expr α) (k : Nat) (x : α) :
+      ValT ops defs a k x → ValT ops defs (.lookup p a) k (ops.lookup p x)
+
+/-- pointwise relation of two lists (core Lean has no `Forall₂`) -/
+inductive Rel₂ {β γ : Type} (R : β → γ → Prop) : List β → List γ → Prop where
+  | nil : Rel₂ R [] []
+  | cons {b : β} {c : γ} {bs : List β} {cs : List γ} : R b c → Rel₂ R bs cs → Rel₂ R (b :: bs) (c :: cs)
+
+theorem Rel₂.imp {β γ : Type} {R R' : β → γ → Prop} {bs : List β} {cs : List γ}
+    (h : ∀ b c, R b c → R' b c) (r : Rel₂ R bs cs) : Rel₂ R' bs cs := by
+  induction r with
+  | nil => exact .nil
+  | cons hr _ ih => exact .cons (h _ _ hr) ih
+
+/-- the ideal value is unique -/
+theorem ValT.det {α : Type} {ops : Ops α} {defs : Nat → Nat → Expr α} {e : Expr α} {k : Nat} {v w : α}
+    (h1 : ValT ops defs e k v) (h2 : ValT ops defs e k w) : v = w := by
+  induction h1 generalizing w with
+  | lit x k => cases h2; rfl
+  | ref n k v _ ih => cases h2 with | ref _ _ _ h => exact ih h
+  | prev n k v _ ih => cases h2 with | prev _ _ _ h => exact ih h
+  | bin op a b k x y _ _ iha ihb =>
+      cases h2 with | bin _ _ _ _ x' y' ha hb => rw [iha ha, ihb hb]
+  | max0 a k x _ ih => cases h2 with | max0 _ _ x' h => rw [ih h]
+  | atStart0 a b v _ ih => cases h2 with | atStart0 _ _ _ h => exact ih h
+  | atStartS a b k v _ ih => cases h2 with | atStartS _ _ _ _ h => exact ih h
+  | lookup p a k x _ ih => cases h2 with | lookup _ _ _ x' h => rw [ih h]
+
+/-- **nothing before it**, at the level of values: the value at grid index `k` depends only on the
+definitions in force at indices `≤ k` -/
+theorem ValT.congr {α : Type} {ops : Ops α} {defs defs' : Nat → Nat → Expr α} {e : Expr α} {k : Nat} {v : α}
+    (h : ValT ops defs e k v) : (∀ i, i ≤ k → defs i = defs' i) → ValT ops defs' e k v := by
+  induction h with
+  | lit x k => intro _; exact .lit x k
+  | ref n k v _ ih => intro hag; have := ih hag; rw [hag k (Nat.le_refl k)] at this; exact .ref n k v this
+  | prev n k v _ ih =>
+      intro hag
+      have := ih (fun i hi => hag i (Nat.le_succ_of_le hi))
+      rw [hag k (Nat.le_succ k)] at this; exact .prev n k v this
+  | bin op a b k x y _ _ iha ihb => intro hag; exact .bin op a b k x y (iha hag) (ihb hag)
+  | max0 a k x _ ih => intro hag; exact .max0 a k x (ih hag)
+  | atStart0 a b v _ ih => intro hag; exact .atStart0 a b v (ih hag)
+  | atStartS a b k v _ ih => intro hag; exact .atStartS a b k v (ih hag)
+  | lookup p a k x _ ih => intro hag; exact .lookup p a k x (ih hag)
+
+/-- every element reference of the expression names one of the scenario's `nEq` equations -/
+def Closed {α : Type} (nEq : Nat) : Expr α → Prop
+  | .lit _ => True
+  | .ref n => n < nEq
+  | .prev n => n < nEq
+  | .bin _ a b => Closed nEq a ∧ Closed nEq b
+  | .max0 a => Closed nEq a
+  | .atStart a b => Closed nEq a ∧ Closed nEq b
+  | .rnd => True
+  | .lookup _ a => Closed nEq a
+
+/-- the memo during step `j`: every entry is the ideal value of its key and lies at an index `≤ j`;
+**every equation has an entry at every earlier index** (what finalisation of all equations establishes) -/
+structure MemInv {α : Type} (ops : Ops α) (defs : Nat → Nat → Expr α) (nEq j : Nat) (m : Memo α) : Prop where
+  sound : ∀ n i v, look m (n, i) = some v → i ≤ j ∧ ValT ops defs (defs i n) i v
+  complete : ∀ n i, n < nEq → i < j → ∃ v, look m (n, i) = some v
+
+def Mono {α : Type} (m m' : Memo α) : Prop := ∀ key v, look m key = some v → look m' key = some v
+
+theorem MemInv.of_mono {α : Type} {ops : Ops α} {defs : Nat → Nat → Expr α} {nEq j : Nat} {m m' : Memo α}
+    (h : MemInv ops defs nEq j m) (hm : Mono m m')
+    (hs : ∀ n i v, look m' (n, i) = some v → i ≤ j ∧ ValT ops defs (defs i n) i v) : MemInv ops defs nEq j m' :=
+  ⟨hs, fun n i hn hi => by obtain ⟨v, hv⟩ := h.complete n i hn hi; exact ⟨v, hm _ _ hv⟩⟩
+
+/-- specification of a key evaluator during step `j` (keys of the scenario at indices `≤ j`) -/
+def EvOK {α : Type} (ops : Ops α) (defs : Nat → Nat → Expr α) (nEq j : Nat)
+    (ev : Memo α → Key → Memo α × Option α) : Prop :=
+  ∀ m n i, n < nEq → i ≤ j → MemInv ops defs nEq j m →
+    MemInv ops defs nEq j (ev m (n, i)).1 ∧ Mono m (ev m (n, i)).1 ∧
+    ∀ v, (ev m (n, i)).2 = some v → ValT ops defs (defs i n) i v
+
+theorem evalE_ok {α : Type} (ops : Ops α) (defs : Nat → Nat → Expr α) (nEq j : Nat)
+    (ev : Memo α → Key → Memo α × Option α) (hev : EvOK ops defs nEq j ev) :
+    ∀ (e : Expr α), Closed nEq e → ∀ (i : Nat) (m : Memo α), i ≤ j → MemInv ops defs nEq j m →
+      MemInv ops defs nEq j (evalE ops ev e i m).1 ∧ Mono m (evalE ops ev e i m).1 ∧
+      ∀ v, (evalE ops ev e i m).2 = some v → ValT ops defs e i v := by
+  intro e
+  induction e with
+  | lit x =>
+      intro _ i m _ hm
+      exact ⟨hm, fun _ _ h => h, by intro v h; simp [evalE] at h; subst h; exact .lit x i⟩
+  | ref n =>
+      intro hc i m hi hm
+      have := hev m n i hc hi hm
+      exact ⟨this.1, this.2.1, fun v h => .ref n i v (this.2.2 v h)⟩
+  | prev n =>
+      intro hc i m hi hm
+      cases i with
+      | zero => exact ⟨hm, fun _ _ h => h, by intro v h; simp [evalE] at h⟩
+      | succ i' =>
+          have := hev m n i' hc (by omega) hm
+          exact ⟨this.1, this.2.1, fun v h => .prev n i' v (this.2.2 v h)⟩
+  | bin op a b iha ihb =>
+      intro hc i m hi hm
+      have ha := iha hc.1 i m hi hm
+      rcases hea : evalE ops ev a i m with ⟨m1, ra⟩
+      rw [hea] at ha
+      cases ra with
+      | none => simp only [evalE, hea]; exact ⟨ha.1, ha.2.1, by intro v h; simp at h⟩
+      | some x =>
+          have hb := ihb hc.2 i m1 hi ha.1
+          rcases heb : evalE ops ev b i m1 with ⟨m2, rb⟩
+          rw [heb] at hb
+          have hmono : Mono m m2 := fun key v h => hb.2.1 key v (ha.2.1 key v h)
+          cases rb with
+          | none => simp only [evalE, hea, heb]; exact ⟨hb.1, hmono, by intro v h; simp at h⟩
+          | some y =>
+              simp only [evalE, hea, heb]
+              refine ⟨hb.1, hmono, ?_⟩
+              intro v h; simp at h; subst h
+              exact .bin op a b i x y (ha.2.2 x rfl) (hb.2.2 y rfl)
+  | max0 a iha =>
+      intro hc i m hi hm
+      have ha := iha hc i m hi hm
+      rcases hea : evalE ops ev a i m with ⟨m1, ra⟩
+      rw [hea] at ha
+      cases ra with
+      | none => simp only [evalE, hea]; exact ⟨ha.1, ha.2.1, by intro v h; simp at h⟩
+      | some x =>
+          simp only [evalE, hea]
+          refine ⟨ha.1, ha.2.1, ?_⟩
+          intro v h; simp at h; subst h
+          exact .max0 a i x (ha.2.2 x rfl)
+  | atStart a b iha ihb =>
+      intro hc i m hi hm
+      cases i with
+      | zero =>
+          have ha := iha hc.1 0 m hi hm
+          exact ⟨ha.1, ha.2.1, fun v h => .atStart0 a b v (ha.2.2 v h)⟩
+      | succ i' =>
+          have hb := ihb hc.2 (i' + 1) m hi hm
+          exact ⟨hb.1, hb.2.1, fun v h => .atStartS a b i' v (hb.2.2 v h)⟩
+  | rnd =>
+      intro _ i m _ hm
+      exact ⟨hm, fun _ _ h => h, by intro v h; simp [evalE] at h⟩
+  | lookup p a iha =>
+      intro hc i m hi hm
+      have ha := iha hc i m hi hm
+      rcases hea : evalE ops ev a i m with ⟨m1, ra⟩
+      rw [hea] at ha
+      cases ra with
+      | none => simp only [evalE, hea]; exact ⟨ha.1, ha.2.1, by intro v h; simp at h⟩
+      | some x =>
+          simp only [evalE, hea]
+          refine ⟨ha.1, ha.2.1, ?_⟩
+          intro v h; simp at h; subst h
+          exact .lookup p a i x (ha.2.2 x rfl)
+
+/-- **`memoize` during step `j`** (C08's `evalK` run with the definitions in force at `j`): because every
+equation already has its entry at every earlier index, a miss can only happen AT index `j`, where the
+current definitions are the right ones — so every value returned, at whatever index, is the ideal one. -/
+theorem evalK_ok {α : Type} (ops : Ops α) (defs : Nat → Nat → Expr α) (nEq j : Nat)
+    (hcl : ∀ n, n < nEq → Closed nEq (defs j n)) :
+    ∀ fuel, EvOK ops defs nEq j (evalK ops (defs j) fuel) := by
+  intro fuel
+  induction fuel with
+  | zero => intro m n i _ _ hm; exact ⟨hm, fun _ _ h => h, by intro v h; simp [evalK] at h⟩
+  | succ f ih =>
+      intro m n i hn hi hm
+      simp only [evalK]
+      cases hl : look m (n, i) with
+      | some v =>
+          refine ⟨hm, fun _ _ h => h, ?_⟩
+          intro w h; simp at h; subst h; exact (hm.sound n i v hl).2
+      | none =>
+          have hij : i = j := by
+            rcases Nat.lt_or_ge i j with h | h
+            · obtain ⟨v, hv⟩ := hm.complete n i hn h; rw [hl] at hv; cases hv
+            · omega
+          subst hij
+          have he := evalE_ok ops defs nEq i _ ih (defs i n) (hcl n hn) i m (Nat.le_refl i) hm
+          rcases hee : evalE ops (evalK ops (defs i) f) (defs i n) i m with ⟨m1, r⟩
+          simp only [hee] at he ⊢
+          cases r with
+          | none => exact ⟨he.1, he.2.1, by intro v h; simp at h⟩
+          | some v =>
+              have hv := he.2.2 v rfl
+              have hmono : Mono m ((((n, i) : Key), v) :: m1) := by
+                intro key w h
+                rw [look_cons']
+                split
+                · rename_i hk; subst hk; rw [hl] at h; cases h
+                · exact he.2.1 key w h
+              refine ⟨hm.of_mono hmono ?_, hmono, ?_⟩
+              · intro n' i' w h
+                rw [look_cons'] at h
+                split at h
+                · rename_i hk; cases hk; cases h; exact ⟨Nat.le_refl _, hv⟩
+                · exact he.1.sound n' i' w h
+              · intro w h; simp at h; subst h; exact hv
+
+/-- a list of equations evaluated at index `j`: each returned value is the ideal one and is stored -/
+theorem evalList_ok {α : Type} (ops : Ops α) (defs : Nat → Nat → Expr α) (nEq j fuel : Nat)
+    (hcl : ∀ n, n < nEq → Closed nEq (defs j n)) :
+    ∀ (es : List Nat), (∀ e ∈ es, e < nEq) → ∀ (m m' : Memo α) (vs : List α), MemInv ops defs nEq j m →
+      evalList ops (defs j) fuel j es m = some (m', vs) →
+      MemInv ops defs nEq j m' ∧ Mono m m' ∧ Rel₂ (fun e v => ValT ops defs (defs j e) j v) es vs ∧
+      ∀ e ∈ es, ∃ v, look m' (e, j) = some v := by
+  intro es
+  induction es with
+  | nil =>
+      intro _ m m' vs hm h
+      simp only [evalList, Option.some.injEq, Prod.mk.injEq] at h
+      obtain ⟨rfl, rfl⟩ := h
+      exact ⟨hm, fun _ _ h => h, .nil, by intro e he; cases he⟩
+  | cons e es ih =>
+      intro hes m m' vs hm h
+      simp only [evalList] at h
+      have hk := evalK_ok ops defs nEq j hcl fuel m e j (hes e List.mem_cons_self) (Nat.le_refl j) hm
+      rcases hek : evalK ops (defs j) fuel m (e, j) with ⟨m1, r⟩
+      rw [hek] at h hk
+      cases r with
+      | none => simp at h
+      | some v =>
+          simp only at h
+          cases hr : evalList ops (defs j) fuel j es m1 with
+          | none => rw [hr] at h; simp at h
+          | some p =>
+              obtain ⟨m2, ws⟩ := p
+              rw [hr] at h
+              simp only [Option.some.injEq, Prod.mk.injEq] at h
+              obtain ⟨rfl, rfl⟩ := h
+              have hrest := ih (fun x hx => hes x (List.mem_cons_of_mem _ hx)) m1 m2 ws hk.1 hr
+              have hst : look m1 (e, j) = some v := by
+                have := evalK_stored' ops (defs j) fuel m (e, j) v (by rw [hek])
+                rw [hek] at this; exact this
+              refine ⟨hrest.1, fun key w hw => hrest.2.1 key w (hk.2.1 key w hw), .cons (hk.2.2 v rfl) hrest.2.2.1, ?_⟩
+              intro x hx
+              rcases List.mem_cons.mp hx with rfl | hx'
+              · exact ⟨v, hrest.2.1 _ _ hst⟩
+              · exact hrest.2.2.2 x hx'
+
+theorem closed_applySet {α : Type} (nEq : Nat) (body : Nat → Expr α) (s : CSet α)
+    (h : ∀ n, n < nEq → Closed nEq (body n)) : ∀ n, n < nEq → Closed nEq (applySet body s n) := by
+  induction s generalizing body with
+  | nil => exact h
+  | cons p rest ih =>
+      simp only [applySet, List.foldl_cons] at ih ⊢
+      apply ih
+      intro n hn
+      simp only [C08.updFn]
+      split
+      · trivial
+      · exact h n hn
+
+theorem defsAt_append_lt {α : Type} (base : Nat → Expr α) (a b : List (CSet α)) (i : Nat) (h : i < a.length) :
+    defsAt base (a ++ b) i = defsAt base a i := by
+  unfold defsAt
+  rw [List.take_append_of_le_length (by omega)]
+
+theorem defsAt_last {α : Type} (base : Nat → Expr α) (a : List (CSet α)) (s : CSet α) :
+    defsAt base (a ++ [s]) a.length = applySet (a.foldl applySet base) s := by
+  unfold defsAt
+  rw [List.take_of_length_le (by simp)]
+  simp [List.foldl_append]
+
+theorem closed_defs {α : Type} (nEq : Nat) (base : Nat → Expr α) (hb : ∀ n, n < nEq → Closed nEq (base n))
+    (ss : List (CSet α)) : ∀ n, n < nEq → Closed nEq (ss.foldl applySet base n) := by
+  induction ss generalizing base with
+  | nil => exact hb
+  | cons s rest ih => simp only [List.foldl_cons]; exact ih _ (closed_applySet nEq base s hb)
+
+/-- session invariant between steps, after the single steps `done` -/
+structure MSInv {α : Type} (ops : Ops α) (nEq : Nat) (base : Nat → Expr α) (eqs : List Nat)
+    (st : MSess α) (done : List (CSet α)) : Prop where
+  clock : st.k = done.length
+  body : st.body = done.foldl applySet base
+  sound : ∀ n i v, look st.memo (n, i) = some v →
+    i < done.length ∧ ValT ops (defsAt base done) (defsAt base done i n) i v
+  complete : ∀ n i, n < nEq → i < done.length → ∃ v, look st.memo (n, i) = some v
+  loglen : st.log.length = done.length
+  log : ∀ j row, st.log[j]? = some row →
+    Rel₂ (fun e v => ValT ops (defsAt base done) (defsAt base done j e) j v) eqs row
+
+theorem msinv_step {α : Type} (ops : Ops α) (nEq : Nat) (kind : Nat → C08.Kind) (base : Nat → Expr α)
+    (hb : ∀ n, n < nEq → Closed nEq (base n)) (fuel : Nat) (eqs : List Nat) (heqs : ∀ e ∈ eqs, e < nEq)
+    (st st' : MSess α) (done : List (CSet α)) (s : CSet α) (h : MSInv ops nEq base eqs st done)
+    (hs : mstep .all nEq kind ops fuel eqs st s = some st') :
+    MSInv ops nEq base eqs st' (done ++ [s]) := by
+  -- the definitions of the extended run; they agree with the old ones below `done.length`
+  have hagree : ∀ i, i < done.length → ∀ i', i' ≤ i → defsAt base done i' = defsAt base (done ++ [s]) i' :=
+    fun i hi i' hi' => (defsAt_append_lt base done [s] i' (by omega)).symm
+  have hcur : defsAt base (done ++ [s]) done.length = applySet st.body s := by rw [defsAt_last, h.body]
+  have hcl : ∀ n, n < nEq → Closed nEq (defsAt base (done ++ [s]) done.length n) := by
+    rw [hcur, h.body]; exact closed_applySet nEq _ s (closed_defs nEq base hb done)
+  have hm0 : MemInv ops (defsAt base (done ++ [s])) nEq done.length st.memo := by
+    refine ⟨?_, h.complete⟩
+    intro n i v hl
+    obtain ⟨hi, hv⟩ := h.sound n i v hl
+    refine ⟨by omega, ?_⟩
+    have := hv.congr (hagree i hi)
+    rw [hagree i hi i (Nat.le_refl i)] at this; exact this
+  simp only [mstep] at hs
+  rw [← hcur, h.clock] at hs
+  cases h1 : evalList ops (defsAt base (done ++ [s]) done.length) fuel done.length eqs st.memo with
+  | none => rw [h1] at hs; simp at hs
+  | some p1 =>
+      obtain ⟨m1, row⟩ := p1
+      rw [h1] at hs
+      simp only at hs
+      cases h2 : evalList ops (defsAt base (done ++ [s]) done.length) fuel done.length (finList .all nEq kind) m1 with
+      | none => rw [h2] at hs; simp at hs
+      | some p2 =>
+          obtain ⟨m2, fin⟩ := p2
+          rw [h2] at hs
+          simp only [Option.some.injEq] at hs
+          subst hs
+          have r1 := evalList_ok ops _ nEq done.length fuel hcl eqs heqs st.memo m1 row hm0 h1
+          have r2 := evalList_ok ops _ nEq done.length fuel hcl (finList .all nEq kind)
+            (by intro e he; simpa [finList] using he) m1 m2 fin r1.1 h2
+          refine ⟨by simp [h.clock], by show defsAt base (done ++ [s]) done.length = _; rw [defsAt_last]; simp [List.foldl_append], ?_, ?_, by simp [h.loglen], ?_⟩
+          · intro n i v hl
+            obtain ⟨hi, hv⟩ := r2.1.sound n i v hl
+            exact ⟨by simp; omega, hv⟩
+          · intro n i hn hi
+            simp only [List.length_append, List.length_singleton] at hi
+            rcases Nat.lt_or_ge i done.length with hlt | hge
+            · exact r2.1.complete n i hn hlt
+            · have : i = done.length := by omega
+              subst this
+              exact r2.2.2.2 n (by simpa [finList] using hn)
+          · intro j rw' hj
+            simp only at hj
+            rcases Nat.lt_or_ge j st.log.length with hlt | hge
+            · rw [List.getElem?_append_left hlt] at hj
+              have hold := h.log j rw' hj
+              have hjd : j < done.length := by rw [← h.loglen]; exact hlt
+              refine Rel₂.imp ?_ hold
+              intro e v hv
+              have := hv.congr (hagree j hjd)
+              rw [hagree j hjd j (Nat.le_refl j)] at this; exact this
+            · rw [List.getElem?_append_right hge] at hj
+              have hj0 : j - st.log.length = 0 := by
+                rcases Nat.eq_zero_or_pos (j - st.log.length) with h0 | hp
+                · exact h0
+                · rw [List.getElem?_eq_none (by simp; omega)] at hj; cases hj
+              rw [hj0] at hj
+              simp only [List.getElem?_cons_zero, Option.some.injEq] at hj
+              subst hj
+              have : j = done.length := by rw [← h.loglen]; omega
+              subst this
+              exact r1.2.2.1
+
+/-- **Settings from step k on, nothing before — derived from the memo mechanics.**  With every equation of
+the scenario evaluated at each step: whatever the step settings, the requested list and the fuel, if the
+session of `ss.length` steps returns, row `j` of its log holds for every requested equation THE value of
+that equation at `t_j` under the definitions in force at each grid index (`ValT` is deterministic), i.e. the
+settings of step `k` act on the rows `≥ k` and on no earlier one (`ValT.congr`). -/
+def MemoSessionOK (fs : FinSet) : Prop :=
+  ∀ (α : Type) (ops : Ops α) (nEq : Nat) (kind : Nat → C08.Kind) (base : Nat → Expr α),
+    (∀ n, n < nEq → Closed nEq (base n)) →
+    ∀ (fuel : Nat) (eqs : List Nat), (∀ e ∈ eqs, e < nEq) →
+    ∀ (ss : List (CSet α)) (st : MSess α), msteps fs nEq kind ops fuel eqs ss (mbegin base) = some st →
+      st.log.length = ss.length ∧
+      ∀ j row, st.log[j]? = some row →
+        Rel₂ (fun e v => ValT ops (defsAt base ss) (defsAt base ss j e) j v) eqs row
+
+theorem msinv_run {α : Type} (ops : Ops α) (nEq : Nat) (kind : Nat → C08.Kind) (base : Nat → Expr α)
+    (hb : ∀ n, n < nEq → Closed nEq (base n)) (fuel : Nat) (eqs : List Nat) (heqs : ∀ e ∈ eqs, e < nEq)
+    (rest : List (CSet α)) : ∀ (st st' : MSess α) (done : List (CSet α)), MSInv ops nEq base eqs st done →
+      msteps .all nEq kind ops fuel eqs rest st = some st' → MSInv ops nEq base eqs st' (done ++ rest) := by
+  induction rest with
+  | nil => intro st st' done h hs; simp only [msteps, Option.some.injEq] at hs; subst hs; simpa using h
+  | cons s rest ih =>
+      intro st st' done h hs
+      simp only [msteps] at hs
+      cases h1 : mstep .all nEq kind ops fuel eqs st s with
+      | none => rw [h1] at hs; simp at hs
+      | some st1 =>
+          rw [h1] at hs
+          have := ih st1 st' (done ++ [s]) (msinv_step ops nEq kind base hb fuel eqs heqs st st1 done s h h1) hs
+          simpa using this
+
+theorem memo_session_ideal : MemoSessionOK .all := by
+  unfold MemoSessionOK
+  intro α ops nEq kind base hb fuel eqs heqs ss st hs
+  have h0 : MSInv ops nEq base eqs (mbegin base) [] :=
+    ⟨rfl, rfl, by intro n i v h; simp [mbegin, look] at h, by intro n i _ hi; simp at hi, rfl,
+     by intro j row h; simp [mbegin] at h⟩
+  have := msinv_run ops nEq kind base hb fuel eqs heqs ss (mbegin base) st [] h0 hs
+  simp only [List.nil_append] at this
+  exact ⟨this.loglen, this.log⟩
+
+/-- the same, in the words of the statement: two sessions whose steps carry the same settings up to
+(excluding) step `k` have the same ideal value in every row before `k`, whatever follows -/
+theorem memo_nothing_before {α : Type} (ops : Ops α) (base : Nat → Expr α) (pre a b : List (CSet α))
+    (e : Expr α) (j : Nat) (v : α) (hj : j < pre.length)
+    (h : ValT ops (defsAt base (pre ++ a)) e j v) : ValT ops (defsAt base (pre ++ b)) e j v :=
+  h.congr fun i hi => by rw [defsAt_append_lt base pre a i (by omega), defsAt_append_lt base pre b i (by omega)]
+
+/-! ### the look-back witness: only the state equations are finalised
+
+Equations 0 = `c` (constant 1), 1 = `g = c` (auxiliary, **never requested**, read by no stock or flow at its
+own time), 2 = `f = max(0, delay(g, dt))` (flow).  Requested: `[f]`.  Steps: two without settings, the third
+sets `c = 10`.  `g(t_1)` was never evaluated during step 1 (only `f`, a state equation, was made final), so
+step 2 evaluates it with the new `c`: the session reports `f(t_2) = 10`, the ideal value is `g(t_1) = 1`. -/
+
+def wKind : Nat → C08.Kind := fun n => if n = 2 then .flow else .other
+def wBody : Nat → Expr Int := fun n =>
+  if n = 0 then .lit 1 else if n = 1 then .ref 0 else .max0 (.atStart (.ref 1) (.prev 1))
+def wSteps : List (CSet Int) := [[], [], [(0, 10)]]
+
+theorem wBody_closed : ∀ n, n < 3 → Closed 3 (wBody n) := by
+  intro n hn
+  have : n = 0 ∨ n = 1 ∨ n = 2 := by omega
+  rcases this with rfl | rfl | rfl <;> simp [wBody, Closed]
+
+theorem memo_witness_aux (fs : FinSet)
+    (hlog : (msteps fs 3 wKind wOps 8 [2] wSteps (mbegin wBody)).map (·.log) = some [[1], [1], [10]]) :
+    ¬ MemoSessionOK fs := by
+  intro hf
+  cases hrun : msteps fs 3 wKind wOps 8 [2] wSteps (mbegin wBody) with
+  | none => rw [hrun] at hlog; simp at hlog
+  | some st =>
+      rw [hrun] at hlog
+      simp only [Option.map_some, Option.some.injEq] at hlog
+      have h := (hf Int wOps 3 wKind wBody wBody_closed 8 [2] (by decide) wSteps st hrun).2 2 [10]
+        (by rw [hlog]; rfl)
+      cases h with
+      | cons hv _ =>
+          have h0 : ValT wOps (defsAt wBody wSteps) (defsAt wBody wSteps 1 0) 1 1 := ValT.lit 1 1
+          have h1 : ValT wOps (defsAt wBody wSteps) (defsAt wBody wSteps 1 1) 1 1 := ValT.ref 0 1 1 h0
+          have h2 : ValT wOps (defsAt wBody wSteps) (.prev 1) 2 1 := ValT.prev 1 1 1 h1
+          have h3 : ValT wOps (defsAt wBody wSteps) (.atStart (.ref 1) (.prev 1)) 2 1 := ValT.atStartS _ _ 1 1 h2
+          have h4 : ValT wOps (defsAt wBody wSteps) (.max0 (.atStart (.ref 1) (.prev 1))) 2 (wOps.max0 1) :=
+            ValT.max0 _ 2 1 h3
+          have ideal : ValT wOps (defsAt wBody wSteps) (defsAt wBody wSteps 2 2) 2 1 := h4
+          exact absurd (hv.det ideal) (by decide)
+
+/-- kernel-checked: **only the state equations (stocks, flows) are finalised** ⇒ the session reports
+`f(t_2) = 10` where the ideal value is `1` -/
+theorem memo_witness_state_only : ¬ MemoSessionOK .stateOnly := memo_witness_aux .stateOnly (by decide)
+
+/-- the pinned tree (only the requested equations are evaluated): same history, same leak -/
+theorem memo_witness_requested_only : ¬ MemoSessionOK .requestedOnly := memo_witness_aux .requestedOnly (by decide)
+
+/-- with every equation finalised the same history reports the ideal `[[1], [1], [1]]` (non-vacuity of
+`memo_session_ideal`: the session returns, and the auxiliary's old value is the one used) -/
+example : (msteps .all 3 wKind wOps 8 [2] wSteps (mbegin wBody)).map (·.log) = some [[1], [1], [1]] := by decide
+
+/-! ## the property at full strength -/
+
+/-- C09: (1) channels — whatever the partition into calls, the session log is the ideal rows of the abstract
+causal simulator on the batch grid; (2) mechanism — the session as it is implemented (definitions rebound by
+step settings, memo never reset, the probed set of equations evaluated at each step) reports, for every model
+in C08's expression language, every requested list, every settings script and every fuel, the ideal value of
+every requested equation in every row. -/
+def C09_full (c : Cfg) : Prop := C09_channels c ∧ MemoSessionOK (finSet c)
+
+theorem C09_full_of_good (c : Cfg) (hg : c.good = true) : C09_full c := by
+  refine ⟨C09_channels_of_good c hg, ?_⟩
+  have : finSet c = .all := by
+    simp only [Cfg.good, Bool.and_eq_true] at hg
+    simp [finSet, hg.2]
+  rw [this]; exact memo_session_ideal
+
+theorem C09_witness_state_only (c : Cfg) (h1 : c.stepFinalisesAll = false) (h2 : c.stepFinalisesState = true) :
+    ¬ C09_full c := by
+  intro hf
+  have : finSet c = .stateOnly := by simp [finSet, h1, h2]
+  exact memo_witness_state_only (this ▸ hf.2)
+
+theorem C09_witness_requested_only (c : Cfg) (h1 : c.stepFinalisesAll = false) (h2 : c.stepFinalisesState = false) :
+    ¬ C09_full c := by
+  intro hf
+  have : finSet c = .requestedOnly := by simp [finSet, h1, h2]
+  exact memo_witness_requested_only (this ▸ hf.2)
+
 /-! ### negation witnesses -/
 
 def wSim : Sim Nat Nat := { merge := fun _ b => b, val := fun f _ k => f (k - 1) + 100 * k }
@@ -273,27 +790,27 @@ def wSpecClk : Spec Nat := { n := 3, stride := 1, label := fun k => k, rawLabel 
 
 theorem C09_witness_session_dt (c : Cfg) (h : c.sessionDtFromScenario = false) : ¬ C09_full c := by
   intro hf
-  have := hf Nat Nat Nat wSim wSim_causal wSpecDt 1 [0] false [.stream none]
-  obtain ⟨d, k, f⟩ := c
+  have := hf.1 Nat Nat Nat wSim wSim_causal wSpecDt 1 [0] false [.stream none]
+  obtain ⟨d, k, f, g⟩ := c
   simp only at h; subst h
-  cases k <;> cases f <;> exact absurd (this (by decide)) (by decide)
+  cases k <;> cases f <;> cases g <;> exact absurd (this (by decide)) (by decide)
 
 theorem C09_witness_clock (c : Cfg) (h : c.stepClockNormalised = false) : ¬ C09_full c := by
   intro hf
-  have := hf Nat Nat Nat wSim wSim_causal wSpecClk 1 [0] false [.steps 4 none]
-  obtain ⟨d, k, f⟩ := c
+  have := hf.1 Nat Nat Nat wSim wSim_causal wSpecClk 1 [0] false [.steps 4 none]
+  obtain ⟨d, k, f, g⟩ := c
   simp only at h; subst h
-  cases d <;> cases f <;> exact absurd (this (by decide)) (by decide)
+  cases d <;> cases f <;> cases g <;> exact absurd (this (by decide)) (by decide)
 
 /-- constant `c` = 1, changed to 10 with the third step; requested: an equation that reads `c` at the
 previous grid point, which nobody had memoised (`lazy`): the new value leaks one step back. -/
 theorem C09_witness_settings_leak (c : Cfg) (h : c.stepFinalisesAll = false) : ¬ C09_full c := by
   intro hf
-  have := hf Nat Nat Nat wSim wSim_causal { wSpecClk with rawLabel := fun k => k } 1 [0] true
+  have := hf.1 Nat Nat Nat wSim wSim_causal { wSpecClk with rawLabel := fun k => k } 1 [0] true
     [.step none, .step none, .step (some 10)]
-  obtain ⟨d, k, f⟩ := c
+  obtain ⟨d, k, f, g⟩ := c
   simp only at h; subst h
-  cases d <;> cases k <;> exact absurd (this (by decide)) (by decide)
+  cases d <;> cases k <;> cases g <;> exact absurd (this (by decide)) (by decide)
 
 /-- What holds whatever the Cfg says: partition invariance and format agreement (above), and — the
 settings part restricted to sessions in which every influenced equation is requested (`lazy = false`):
@@ -306,18 +823,18 @@ theorem C09_partial_all_requested (c : Cfg) (hd : c.sessionDtFromScenario = true
       (List.range (expand c spec cs 0).length).map (idealRow sim spec base (expand c spec cs 0) eqs) := by
   -- with `lazy = false` the model does not consult `stepFinalisesAll`
   have key : ∀ (ss : List (Option S)) (st : Sess S L V),
-      runList c sim spec eqs false ss st = runList ⟨true, true, true⟩ sim spec eqs false ss st := by
+      runList c sim spec eqs false ss st = runList ⟨true, true, true, true⟩ sim spec eqs false ss st := by
     intro ss
     induction ss with
     | nil => intro st; rfl
     | cons s ss ih =>
         intro st
-        have : runStep c sim spec eqs false st s = runStep ⟨true, true, true⟩ sim spec eqs false st s := by
+        have : runStep c sim spec eqs false st s = runStep ⟨true, true, true, true⟩ sim spec eqs false st s := by
           simp [runStep, adv, lbl, hd, hk]
         simp [runList, this, ih]
-  have hexp : expand c spec cs 0 = expand ⟨true, true, true⟩ spec cs 0 := by
-    have hadv : adv c spec = adv ⟨true, true, true⟩ spec := by simp [adv, hd]
-    have : ∀ (cs : List (Call S)) k, expand c spec cs k = expand ⟨true, true, true⟩ spec cs k := by
+  have hexp : expand c spec cs 0 = expand ⟨true, true, true, true⟩ spec cs 0 := by
+    have hadv : adv c spec = adv ⟨true, true, true, true⟩ spec := by simp [adv, hd]
+    have : ∀ (cs : List (Call S)) k, expand c spec cs k = expand ⟨true, true, true, true⟩ spec cs k := by
       intro cs
       induction cs with
       | nil => intro k; rfl
@@ -325,13 +842,13 @@ theorem C09_partial_all_requested (c : Cfg) (hd : c.sessionDtFromScenario = true
     exact this cs 0
   have hb : (begin base : Sess S L V).k = 0 := rfl
   rw [partition_invariance, hb, key, hexp]
-  have := C09_full_of_good ⟨true, true, true⟩ rfl S V L sim hc spec base eqs false cs (by rw [← hexp]; exact hl)
+  have := C09_channels_of_good ⟨true, true, true, true⟩ rfl S V L sim hc spec base eqs false cs (by rw [← hexp]; exact hl)
   rw [partition_invariance] at this
   simpa [begin] using this
 
 /-- Non-vacuity: dt-0.25 scenario (`n = 4`), calls `run-step`, `run-steps 2` with a new constant,
 `stream-steps`: five rows, labels 0..4, the setting shows from its own step (index 1) on. -/
-example : (calls ⟨true, true, true⟩ wSim wSpecClk [0] true
+example : (calls ⟨true, true, true, true⟩ wSim wSpecClk [0] true
     [.step none, .steps 2 (some 10), .stream none] (begin 1)).1.log
     = [(0, [1]), (1, [101]), (2, [210]), (3, [310])] := by decide
 
@@ -344,5 +861,13 @@ example : (calls ⟨true, true, true⟩ wSim wSpecClk [0] true
 #print axioms C09_witness_session_dt
 #print axioms C09_witness_clock
 #print axioms C09_witness_settings_leak
+#print axioms C09_channels_of_good
+#print axioms memo_session_ideal
+#print axioms memo_nothing_before
+#print axioms evalK_ok
+#print axioms memo_witness_state_only
+#print axioms memo_witness_requested_only
+#print axioms C09_witness_state_only
+#print axioms C09_witness_requested_only
 
 end Bptk.C09
